@@ -115,9 +115,15 @@ def fileHeader (f : File) : Bytes :=
   headerLine cdHeader (fileDisposition f) ++
   (if isStringEmpty f.ctype then [] else headerLine ctHeader f.ctype) ++ crlf
 
-/-- Content-Disposition value of a plain field (`Writer.WriteField` → `CreateFormField`). -/
-def fieldDisposition (k : Bytes) : Bytes :=
+/-- Content-Disposition value of a plain field as Go's `Writer.WriteField` → `CreateFormField`
+writes it: only `\` and `"` escaped.  This is what `writeMultiPart` used BEFORE fixes/C17-7 (a
+name with CR LF adds lines to the part header); kept for the counter-example. -/
+def rawFieldDisposition (k : Bytes) : Bytes :=
   formData ++ [59, 32] ++ nameKey ++ [61, 34] ++ escapeQuotes k ++ [34]
+
+/-- Content-Disposition value of a plain field (`writeMultipartField`, fixes/C17-7): the name
+is quoted exactly like a file's parameters. -/
+def fieldDisposition (k : Bytes) : Bytes := formData ++ cdParam (nameKey, k)
 
 /-- Part header block of a plain field. -/
 def fieldHeader (k : Bytes) : Bytes := headerLine cdHeader (fieldDisposition k) ++ crlf
@@ -146,6 +152,55 @@ def writeParts (b : Bytes) : List Part → Bytes
 iteration order), then the files, then `w.Close()`. -/
 def write (b : Bytes) (fields : List (Bytes × Bytes)) (files : List File) : Bytes :=
   writeParts b (fields.map fieldPart ++ files.map filePart)
+
+/-! ### what `writeMultiPart` refuses (fixes/C17-6, C17-7): the error branch -/
+
+/-- RFC 7230 `tchar` (`httpguts.IsTokenRune` on a byte). -/
+def isTChar (c : UInt8) : Bool :=
+  (48 ≤ c && c ≤ 57) || (65 ≤ c && c ≤ 90) || (97 ≤ c && c ≤ 122) ||
+  c == 33 || c == 35 || c == 36 || c == 37 || c == 38 || c == 39 || c == 42 || c == 43 ||
+  c == 45 || c == 46 || c == 94 || c == 95 || c == 96 || c == 124 || c == 126
+
+/-- `httpguts.ValidHeaderFieldName`: a non-empty token. -/
+def validParamKey (k : Bytes) : Bool := !k.isEmpty && k.all isTChar
+
+/-- `httpguts.ValidHeaderFieldValue`: no control byte except TAB, no DEL. -/
+def validFieldValue (v : Bytes) : Bool := v.all fun c => !headerUnsafe c
+
+inductive WriteErr where
+  | missingFieldName     -- a form field without a name (`errMissingFieldName`)
+  | badContentType       -- `errBadMultipartContentType`
+  | badParamKey          -- `errBadMultipartParamKey`
+  | read                 -- the file's content function or reader failed
+deriving Repr, DecidableEq
+
+/-- `writeMultipartField`: a part without a name cannot be represented. -/
+def checkField (kv : Bytes × Bytes) : Except WriteErr Unit :=
+  if kv.1.isEmpty then .error .missingFieldName else .ok ()
+
+/-- `checkMultipartHeader`: the content type must be a valid header value, every extra
+Content-Disposition parameter name a token. -/
+def checkFile (f : File) : Except WriteErr Unit :=
+  if !validFieldValue f.ctype then .error .badContentType
+  else if f.extra.any (fun p => !validParamKey p.1) then .error .badParamKey
+  else .ok ()
+
+def checkAll {α} (chk : α → Except WriteErr Unit) : List α → Except WriteErr Unit
+  | [] => .ok ()
+  | x :: xs => match chk x with
+    | .error e => .error e
+    | .ok () => checkAll chk xs
+
+/-- `writeMultiPart` with its error branch: the first refused field or file fails the whole
+body (nothing is sent on the buffered path; the pipe is closed with the error on the streamed
+path). -/
+def writeChecked (b : Bytes) (fields : List (Bytes × Bytes)) (files : List File) :
+    Except WriteErr Bytes :=
+  match checkAll checkField fields with
+  | .error e => .error e
+  | .ok () => match checkAll checkFile files with
+    | .error e => .error e
+    | .ok () => .ok (write b fields files)
 
 def isTSpecial (c : UInt8) : Bool :=
   c == 40 || c == 41 || c == 60 || c == 62 || c == 64 || c == 44 || c == 59 || c == 58 ||
